@@ -83,6 +83,11 @@ func c01Gen(c *rt.Ctx) c01Case {
 		c.Rec.Inc("bigint_store")
 	}
 	g := &gen.PredGen{R: r, KeyLits: st.KeyLiterals(r), IntVals: st.ValuesInt(), FltVals: st.ValuesFloat(), Avoid: c.Avoid, FloatEq: !c.Avoid["float-equality"]}
+	if c.Case%8 == 5 {
+		// 010 is ten, 09 is nine
+		g.PadInts = true
+		c.Rec.Inc("integer_literals_with_leading_zeros")
+	}
 	if r.Chance(1, 8) {
 		g.ForceKind = []int{12, 13, 14, 15, 16, 17, 18, 19, 19}[r.Intn(9)]
 		c.Rec.Inc("key_region_constructs_first")
